@@ -411,7 +411,7 @@ inline std::vector<Rec> parse_records(const Bytes &w, bool dtls) {
 
 inline void global_open() {
     static bool done = false; if (done) return; done = true;
-    vf::leak_check_interval() = 1;   // attribute leaks to the case that caused them
+    vf::leak_check_interval() = 25;  // periodic in-process leak check (each costs a heap scan); exit-time leaks are bisected by bin/check
     vfh_entropy_reset(1);
     if (matrixSslOpen() < 0) { fprintf(stderr, "[mxh] matrixSslOpen failed\n"); abort(); }
     keystore().init();
